@@ -15,8 +15,10 @@ class _U(Unit):
 def main():
     rel = sys.argv[1]
     u = _U()
-    for p in sys.argv[2:]:
+    rules = [a.split('=')[1] for a in sys.argv if a.startswith('--rule=')]
+    for p in [a for a in sys.argv[2:] if not a.startswith('--')]:
         it = Item('item', rel, p)
+        it.named_rules = rules
         text, first, bo = u._extract(it, {})
         low = u._lower(it, text, bo)
         print('//@item %s :: %s' % (rel, p))
